@@ -86,6 +86,8 @@ def build_graph_table(rng, length, shape, cyclic, nconfigs, extra_values):
     def put(store, cfg, idx, e):
         store.setdefault(cfg.key(), (cfg, {}))[1][idx] = e
 
+    # the reference may sit in every configuration of a node, or only in the later ones (the first variant then holds a plain string)
+    ref_not_in_first = nconfigs >= 2 and rng.random() < 0.4
     for i in range(length):
         last = i == length - 1
         if last and not cyclic:
@@ -96,6 +98,10 @@ def build_graph_table(rng, length, shape, cyclic, nconfigs, extra_values):
             target = R.Value(R.T_REF, rid_of((i + 1) % length))
         for cfg in cfgs:
             v = R.Value(target.dtype, target.data, target.string)
+            if ref_not_in_first and cfg is cfgs[0] and not (shape == "complex" and i == 0):
+                s0 = "first-variant-%d-%d" % (i, rng.randrange(10 ** 6))
+                v = R.Value(R.T_STRING, string=s0)
+                concrete.append(s0)
             if shape == "complex" and i == 0:
                 items = [(0x02000000, v)]
                 if extra_values:
